@@ -63,7 +63,7 @@ def gen_limits(rng, kind):
 
 def gen_system(rng, *, max_nodes=24, p_table=0.25, p_mux=0.3, n_sources=None, polarity=True,
                p_rt=0.0, p_limits=0.0, p_group=0.0, p_rail=0.0, phases=0.0, p_neg_args=0.15,
-               heavy=False, p_neg_src_rs=0.0, p_detour=0.25, p_bridge=0.15, p_dup=0.0, p_micro=0.06, p_rename=0.0, p_moved=0.1, p_zero_load=0.03, p_fallback=0.08):
+               heavy=False, p_neg_src_rs=0.0, p_detour=0.25, p_bridge=0.15, p_dup=0.0, p_micro=0.06, p_rename=0.0, p_moved=0.1, p_zero_load=0.03, p_fallback=0.08, p_oddnames=0.06):
     """Returns a description dict.  `heavy` sizes series resistances / loads towards overload."""
     ns = n_sources if n_sources is not None else rng.choice([1, 1, 1, 2, 2, 3])
     n_total = rng.randint(ns + 1, max(ns + 1, int(rng.choice([4, 8, 12, max_nodes]))))
@@ -244,6 +244,10 @@ def gen_system(rng, *, max_nodes=24, p_table=0.25, p_mux=0.3, n_sources=None, po
                         for p in c["parents"]]
 
     desc = {"name": "sys", "comps": comps, "phases": {}}
+    if p_oddnames and rng.random() < p_oddnames:
+        odd_names(rng, desc)
+    if rng.random() < 0.07:
+        desc["_call"] = {"quiet": False}           # progress display on: what is printed is no part of any result
     if p_fallback and rng.random() < p_fallback:
         add_fallback(rng, desc)
     if rng.random() < phases:
@@ -337,6 +341,8 @@ def micro(rng, desc):
         elif k == "rload":
             a["rs"] = sc(a["rs"], up=True)
         else:
+            if isinstance(a.get("iis"), float) and rng.random() < 0.7:
+                a["iis"] = float("%.3g" % (a["iis"] * 10.0 ** (-rng.uniform(1.5, 4))))   # sleep currents of a few nA ... pA
             continue
         if isinstance(c.get("pconf"), dict):
             c["pconf"] = {p: sc(v, up=(k == "rload")) for p, v in c["pconf"].items()}
@@ -350,6 +356,46 @@ def add_bridge(rng, desc):
         return
     c = rng.choice(cands)
     desc.setdefault("_build", {})["bridge"] = {"child": c["name"], "slot": rng.randrange(len(c["parents"]))}
+
+
+ODD_NAMES = ["Subsystem aux", "Subsystem 1", "Subsystem", "System totals", "System", "Average", "3V3 rail", "a.b", "x y", " lead", "1", "1.5",
+             "1e3", "-5", "α", "ΩLoad", "Load (3.3V)", "ld#1", "a/b", "tx{burst}", "100%", "it's", "Source", "PMux", "Parent", "Component"]
+
+
+def odd_names(rng, desc):
+    """unusual but legal identifiers for one to three components (before any build plan refers to names): names that look like a
+    summary row, a number, a type or a column; spaces, dots, unicode, punctuation.  A name is a name."""
+    comps = desc["comps"]
+    taken = {c["name"] for c in comps} | {c.get("rail") for c in comps if c.get("rail")}
+    for c in rng.sample(comps, min(len(comps), rng.randint(1, 3))):
+        new = rng.choice(ODD_NAMES)
+        if new in taken:
+            continue
+        old = c["name"]
+        taken.add(new)
+        c["name"] = new
+        for d in comps:
+            d["parents"] = [new if q == old else q for q in d["parents"]]
+    desc["_oddnames"] = True
+
+
+ODD_PHASES = ["tx{burst}", "{}", "{0}", "a}", "%s", "100%", "on battery", "N/A ", "1", "α", "it's", "a.b", ""]
+
+
+def odd_phase(rng, desc):
+    """rename one system phase (and every reference to it) to an unusual but legal name"""
+    ph = desc.get("phases") or {}
+    if not ph:
+        return
+    old = rng.choice(list(ph))
+    new = rng.choice([n for n in ODD_PHASES[:-1] if n not in ph] or [old])
+    desc["phases"] = {(new if k == old else k): v for k, v in ph.items()}
+    for c in desc["comps"]:
+        pc = c.get("pconf")
+        if isinstance(pc, list):
+            c["pconf"] = [new if k == old else k for k in pc]
+        elif isinstance(pc, dict):
+            c["pconf"] = {(new if k == old else k): v for k, v in pc.items()}
 
 
 def add_fallback(rng, desc):
@@ -406,6 +452,8 @@ def add_detour(rng, desc):
 def add_phases(rng, desc, unknown=0.1):
     n = rng.randint(2, 5)
     names = rng.sample(["sleep", "idle", "tx", "rx", "move", "boot", "burst"], n)
+    if rng.random() < 0.1:
+        names[rng.randrange(n)] = rng.choice(ODD_PHASES[:-1])     # a phase name is an arbitrary string (only "N/A" is reserved)
     desc["phases"] = {p: sd(rng, 1e-3, 1e5) for p in names}
     if rng.random() < 0.06:
         desc["phases"][rng.choice(names)] = 0.0          # a phase of zero duration is a defined phase like any other
